@@ -169,6 +169,21 @@ def find_fn(name):
     return c[0]
 
 
+def proj_index(fname, type_rx):
+    """index and type text of the struct field whose projection annotation matches type_rx in fname's MIR
+    (so that specs do not hard-code field positions of SmartCalcConfig / Tokinizer)"""
+    fn = find_fn(fname)
+    hits = set()
+    for sts in fn.blocks.values():
+        for st in sts:
+            for m in re.finditer(r"\(\*_\d+\)\.(\d+): ([^;]*?)\)(?=[;,) ]|$)", st):
+                if re.search(type_rx, m.group(2)):
+                    hits.add((int(m.group(1)), m.group(2)))
+    if len(hits) != 1:
+        raise Unsupported("cannot locate a unique field of type /%s/ in %s (%d hits)" % (type_rx, fname, len(hits)))
+    return next(iter(hits))
+
+
 def tok_variant(ex, fields, key):
     """(SymV of the TokenType of field `key`, tag term)"""
     ti = fields.token(key)
@@ -190,12 +205,13 @@ def setup_rule(fname, mode, present=None):
     for name, ks in kinds.items():
         tt = tok_variant(ex, fields, name)
         toks[name] = tt
-        ex.assumptions.append(z3.Or([tt.tag() == variants.index(k) for k in sorted(ks)]))
+        ex.assumptions.append(z3.Or([tt.tag() == ex.discr("TokenType", k) for k in sorted(ks)]))
     # presence: exactly one of the pattern shapes
     shape_conds = []
     for sh in shapes:
         shape_conds.append(z3.And([fields.has_key(n) if n in sh else z3.Not(fields.has_key(n)) for n in kinds]))
     ex.assumptions.append(z3.Or(shape_conds))
+    ex._roots = [cfgv, tkv]
     return ex, fields, toks, [RefV(cfgv), RefV(tkv), RefV(fields)], cfgv, tkv
 
 
@@ -222,7 +238,7 @@ def is_err(o):
 
 
 def tag_is(ex, tt, variant):
-    return tt.tag() == ex.enums["TokenType"].index(variant)
+    return tt.tag() == ex.discr("TokenType", variant)
 
 
 def fval(tt, variant, idx=0):
